@@ -60,6 +60,9 @@ type caseC17 struct {
 	// Go126: the program is built with the newer toolchain installed next to the default one (go1.26.8; thorough tier only: the
 	// first build of its standard library takes a minute)
 	Go126 bool `json:"go126,omitempty"`
+	// Tracer: while the program makes its calls (a few hundred in a loop), another goroutine keeps switching the execution tracer
+	// (runtime/trace) on and off, as a /debug/pprof/trace handler or a sampling agent does
+	Tracer bool `json:"tracer,omitempty"`
 }
 
 // writeFork copies the non-test sources of the tree under test into dir/fork as module example.com/fork/secp256k1.
@@ -169,8 +172,10 @@ const mainTemplate = `package main
 import (
 	"crypto/rand"
 	"errors"
+	"io"
 	"os"
 	"runtime"
+	"runtime/trace"
 	"time"
 
 	secp "github.com/bytemare/secp256k1"
@@ -214,7 +219,32 @@ func firstCallDuringOutage() {
 	}
 }
 
+func traceToggler(stop chan struct{}) {
+	for {
+		select {
+		case <-stop:
+			return
+		default:
+		}
+		if trace.Start(io.Discard) == nil {
+			time.Sleep(300 * time.Microsecond)
+			trace.Stop()
+		}
+		time.Sleep(200 * time.Microsecond)
+	}
+}
+
 func compute() []byte {
+	if %v {
+		stop := make(chan struct{})
+		go traceToggler(stop)
+		defer close(stop)
+		for i := 0; i < 400; i++ {
+			_ = secp.HashToScalar(msg, dst).Encode()
+			_ = secp.EncodeToGroup(msg, dst).Encode()
+			_ = secp.HashToGroup(msg, dst).Encode()
+		}
+	}
 	if %v {
 		firstCallDuringOutage()
 	}
@@ -327,7 +357,7 @@ func runC17(c caseC17, o *gen.Obs) error {
 	o.ClassIf(otherLinks, "sha256-linked-by-others")
 	o.ClassIf(c.Wrap, "registry-replaced")
 	o.ClassIf(c.Rejected > 0, "after-rejected-calls")
-	o.NonTrivialIf(!otherLinks || c.Wrap || c.Rejected > 0 || c.SingleP || c.Arch386 || c.DeadStderr || c.Where != "" || c.Outage || c.IdleMs > 0 || c.Fork)
+	o.NonTrivialIf(!otherLinks || c.Wrap || c.Rejected > 0 || c.SingleP || c.Arch386 || c.DeadStderr || c.Where != "" || c.Outage || c.IdleMs > 0 || c.Fork || c.Tracer)
 
 	dir, err := os.MkdirTemp("", "verif-c17-")
 	if err != nil {
@@ -344,7 +374,7 @@ func runC17(c caseC17, o *gen.Obs) error {
 	}
 	o.Class("where:" + where)
 	o.ClassIf(c.Outage, "entropy-outage-at-start")
-	src := fmt.Sprintf(mainTemplate, imp.String(), byteList(msg), byteList(dst), c.Fn, c.Outage, c.IdleMs, c.Rejected, c.Fn, where, c.Fn)
+	src := fmt.Sprintf(mainTemplate, imp.String(), byteList(msg), byteList(dst), c.Fn, c.Tracer, c.Outage, c.IdleMs, c.Rejected, c.Fn, where, c.Fn)
 	gomod := fmt.Sprintf("module verifprog\n\ngo 1.22.2\n\nrequire github.com/bytemare/secp256k1 v0.0.0\n\nreplace github.com/bytemare/secp256k1 => %s\n", repoDir())
 	if err := os.WriteFile(filepath.Join(dir, "main.go"), []byte(src), 0o644); err != nil {
 		return &gen.Inconclusive{Msg: err.Error()}
@@ -490,6 +520,7 @@ var c17 = gen.Register(&gen.Check[caseC17]{
 		c.Where = []string{"", "", "init", "goroutine", "locked", "finalizer"}[gen.Pick(t, "where", 6)]
 		c.Outage = gen.Chance(t, "outage", 1, 4)
 		c.Fork = gen.Chance(t, "fork", 1, 5)
+		c.Tracer = gen.Chance(t, "tracer", 1, 6)
 		if gen.Chance(t, "rejected", 1, 3) {
 			c.Rejected = rapid.SampledFrom([]int{1000, 70, 3, 300}).Draw(t, "nrej")
 		}
@@ -523,6 +554,7 @@ var c17 = gen.Register(&gen.Check[caseC17]{
 			{Fn: "HashToGroup", Msg: "616263", Dst: "01", DeadStderr: true}, {Fn: "HashToScalar", Msg: "616263", Dst: dst, DeadStderr: true},
 			{Fn: "EncodeToGroup", Msg: "", Dst: hex.EncodeToString(bytes.Repeat([]byte{'x'}, 300)), DeadStderr: true},
 			{Fn: "HashToGroup", Msg: "616263", Dst: dst, IdleMs: 1200}, {Fn: "HashToScalar", Msg: "616263", Dst: hex.EncodeToString(bytes.Repeat([]byte{'i'}, 300)), IdleMs: idleLong()},
+			{Fn: "HashToGroup", Msg: "616263", Dst: dst, Tracer: true}, {Fn: "HashToScalar", Msg: "616263", Dst: dst, Tracer: true, SingleP: true},
 			{Fn: "HashToGroup", Msg: "616263", Dst: dst, Fork: true}, {Fn: "HashToScalar", Msg: "616263", Dst: hex.EncodeToString(bytes.Repeat([]byte{'f'}, 300)), Fork: true},
 			{Fn: "HashToGroup", Msg: "616263", Dst: dst, Go126: go126()}, {Fn: "HashToScalar", Msg: "616263", Dst: hex.EncodeToString(bytes.Repeat([]byte{'n'}, 300)), Go126: go126(), Where: "goroutine"},
 			{Fn: "HashToGroup", Msg: "616263", Dst: dst, Outage: true}, {Fn: "EncodeToGroup", Msg: "616263", Dst: dst, Outage: true}, {Fn: "HashToScalar", Msg: "616263", Dst: dst, Outage: true},
